@@ -5,6 +5,7 @@ mod guard;
 mod ops_core;
 mod ops_script;
 mod ops_text;
+mod netlab;
 
 use std::io::{BufRead, Write};
 
